@@ -56,7 +56,7 @@ FAMILIES = {
         ("plug", fam(Dirs=["a", SOS, PM], Leaves=["f", IA], MaxFiles=2, Plugs=["on"])),
         # the classes of inputs on which the code is known to leave the reference (emitted from the specified
         # mechanism; the transcription of the code is refuted on them by the REFUTE runs below)
-        ("tie", fam(Dirs=["a", "b", "cc"], Leaves=["f", IA, IC], MaxFiles=2, MaxDepth=2, Mech="intended")),
+        ("tie", fam(Dirs=["a", "b"], Leaves=["f", IA, IC], MaxFiles=2, MaxDepth=3, Mech="intended")),
         ("shadow", fam(Dirs=["a", NM_IC, IC], Leaves=["f", IC], MaxFiles=2, Mech="intended")),
         ("under", fam(Dirs=["a", IC, JB], Leaves=["f", IA], MaxFiles=2, MaxDepth=2, Packs=["dir", "tar"],
                       Wheres=["under"], Mech="intended")),
@@ -159,7 +159,22 @@ def write_cfgs():
                     + cfg_text(c, [inv], False))
 
 
-def model_runs(tier):
+def families(tier):
+    """The tier's families, without the packagings whose tools this machine lacks (noted in the evidence)."""
+    import shutil
+    for t in ("tar", "unzip", "gzip"):
+        if not shutil.which(t):
+            raise lib.MachineryError("the code under test extracts with %s, which is not installed" % t)
+    drop = [pk for pk, tool in (("tbz", "bzip2"), ("txz", "xz")) if not shutil.which(tool)]
+    fams = collections.OrderedDict()
+    for name, c in FAMILIES[tier].items():
+        c = dict(c)
+        c["Packs"] = [pk for pk in c["Packs"] if pk not in drop]
+        fams[name] = c
+    return fams, drop
+
+
+def model_runs(tier, fams):
     gen = lib.subdir("x02cfg")
     jobs = []
 
@@ -171,7 +186,7 @@ def model_runs(tier):
 
     jobs.append(("design", "ArchiveContext", wr("design.cfg", cfg_text(DESIGN, INVARIANTS, False)),
                  dict(workers=4, coverage=True), True))
-    for name, c in FAMILIES[tier].items():
+    for name, c in fams.items():
         jobs.append((name, "ArchiveContextMC", wr("mc_%s.cfg" % name, cfg_text(c, INVARIANTS, True)),
                      dict(workers=2, raw_cases=True), True))
     for name, (inv, _, c) in REFUTE.items():
@@ -203,9 +218,9 @@ def model_runs(tier):
     return res, refuted
 
 
-def collect_cases(tier, res):
+def collect_cases(fams, res):
     cases, emitted = [], {}
-    for name in FAMILIES[tier]:
+    for name in fams:
         lines = sorted(set(res[name].cases))
         res[name].cases = []
         emitted[name] = len(lines)
@@ -456,8 +471,9 @@ def judge(prop, verdict, val, traces, cases):
 def run(prop, tier):
     verdict = lib.Verdict(prop, tier)
     t0 = time.time()
-    res, refuted = model_runs(tier)
-    cases, emitted = collect_cases(tier, res)
+    fams, dropped = families(tier)
+    res, refuted = model_runs(tier, fams)
+    cases, emitted = collect_cases(fams, res)
     models = [r for n, r in res.items() if not n.startswith("refute-")]
     print("timing: models %.1fs (%d states in %d runs), %d inputs to replay %s"
           % (time.time() - t0, sum(m.distinct for m in models), len(models), len(cases), emitted))
@@ -480,6 +496,10 @@ def run(prop, tier):
                                  % (lacking_self, sorted(want)))
     counts = collections.Counter()
     nontrivial = set()
+    classes = collections.Counter()       # the model's own classification of the emitted inputs (evidence only)
+    for c in cases:
+        for k in c.get("classes") or []:
+            classes[k] += 1
     for t in traces:
         fs = features(t)
         for f in fs:
@@ -509,6 +529,7 @@ def run(prop, tier):
         extra=dict(inputs_emitted=emitted, driver_stats=stats, antecedents_exercised=dict(counts),
                    model_action_coverage=res["design"].coverage, code_transcription_refuted_on=refuted,
                    selftest_corrupted_traces_rejected=nself, same_events=nsame, tools=tools,
+                   inputs_in_known_defect_classes=dict(classes), packagings_skipped_for_lack_of_tools=dropped,
                    clauses=["ContextDeterministic", "MarkerPriority", "DefaultWhenNoMarker", "OverrideWins",
                             "ExtractionStaysInTempDir", "TempDirRemoved", "BrokerSeededExactly", "RootInsideInput",
                             "ListedExactly"],
